@@ -278,6 +278,8 @@ where
     CS: BbsCiphersuite,
     CS::Expander: for<'a> ExpandMsg<'a>,
 {
+    #[cfg(zkryptium_verif)]
+    crate::verif_hooks::tick("phase:core_sign");
     let L = messages.len();
 
     if generators.values.len() != L + 1 {
@@ -349,6 +351,8 @@ where
     CS: BbsCiphersuite,
     CS::Expander: for<'a> ExpandMsg<'a>,
 {
+    #[cfg(zkryptium_verif)]
+    crate::verif_hooks::tick("phase:core_verify");
     let L = messages.len();
 
     if generators.values.len() != L + 1 {
